@@ -129,8 +129,9 @@ class HarnessGen:
     """builds the bounded harness from a function spec.  Used for (a) CBMC concretisation with --trace and
     (b) the native replay; both compile the same text."""
 
-    def __init__(self, lw, fn, spec, ghosts, K=6):
+    def __init__(self, lw, fn, spec, ghosts, K=6, fixed=None):
         self.lw, self.fn, self.spec, self.ghosts, self.K = lw, fn, spec, ghosts, K
+        self.fixed = fixed or {}
         self.inputs = []   # [(in_name, ctype string)]
         self.paths = {}
         self.lines = []
@@ -146,7 +147,10 @@ class HarnessGen:
         leaves(self.lw, path, t, acc)
         for p, lt in acc:
             nm = self.new_input(lt, p)
-            self.lines.append('  QX_INPUT(%s, %s); %s = %s;' % (lt.cast(), nm, p, nm))
+            if p in self.fixed:
+                self.lines.append('  QX_FIXED(%s, %s, %s); %s = %s;' % (lt.cast(), nm, self.fixed[p], p, nm))
+            else:
+                self.lines.append('  QX_INPUT(%s, %s); %s = %s;' % (lt.cast(), nm, p, nm))
 
     def build(self):
         info = self.lw.fn_info[self.fn]
@@ -155,7 +159,7 @@ class HarnessGen:
         refs = set(spec.get('refs', []))
         L = self.lines
         for (t, g) in self.ghosts:
-            if '[' in g:
+            if '[' in g or '*' in t:
                 continue
             ct = self.lw.ctype(t) if not isinstance(t, CType) else t
             nm = self.new_input(ct, 'ghost ' + g)
@@ -220,7 +224,7 @@ class HarnessGen:
             if nm in bufs:
                 et = t.deref()
                 L.append('  %s = malloc(((size_t)(%s)) * sizeof(%s) + 1);' % (t.decl('r_' + nm, keep_const=False), bufs[nm], et.cast()))
-                L.append('  memcpy((void *)r_%s, %s, ((size_t)(%s)) * sizeof(%s));' % (nm, nm, bufs[nm], et.cast()))
+                L.append('  if ((%s) != 0) memcpy((void *)r_%s, %s, ((size_t)(%s)) * sizeof(%s));' % (bufs[nm], nm, nm, bufs[nm], et.cast()))
                 L.append('  r_%s = realloc((void *)r_%s, ((size_t)(%s)) * sizeof(%s));' % (nm, nm, bufs[nm], et.cast()))
                 rargs.append('r_' + nm)
             elif (nm, t) in objs:
@@ -253,7 +257,7 @@ class HarnessGen:
             for nm, t in objs:
                 L.append('  if (memcmp(&o_%s, &ro_%s, sizeof(o_%s)) != 0) { printf("QX-LOWERING-MISMATCH object %s\\n"); }' % (nm, nm, nm, nm))
             for nm, cnt in bufs.items():
-                L.append('  if (memcmp(%s, r_%s, ((size_t)(%s)) * sizeof(*%s)) != 0) { printf("QX-LOWERING-MISMATCH buffer %s\\n"); }' % (nm, nm, cnt, nm, nm))
+                L.append('  if ((%s) != 0 && memcmp(%s, r_%s, ((size_t)(%s)) * sizeof(*%s)) != 0) { printf("QX-LOWERING-MISMATCH buffer %s\\n"); }' % (cnt, nm, nm, cnt, nm, nm))
             L.append('#endif')
         else:
             L.append('#ifdef QX_NATIVE')
@@ -268,6 +272,7 @@ class HarnessGen:
             L.append('  __CPROVER_assert(%s, "ensures.%d");' % (e, i + 1))
         if getattr(self, 'native_skip_ensures', False):
             L.append('#endif')
+        L.append('  QX_CANARY();')
         L.append('  QX_DONE();')
         # prototype of the real function (native only)
         L0 = ['#ifdef QX_NATIVE', self.lw.proto(info['node']).replace(self.fn + '(', 'qx_real_' + self.fn + '(', 1) + ';', '#endif']
@@ -285,18 +290,29 @@ static int qx_failed = 0;
 #define __CPROVER_assert(c, m) do { if (!(c)) { printf("QX-ASSERT-FAILED %s\n", m); qx_failed = 1; } } while (0)
 #define __CPROVER_size_t size_t
 #define QX_INPUT(T, n) n = (T)QX_VAL_##n
+#define QX_FIXED(T, n, v) n = (T)QX_VAL_##n
+#define QX_CANARY()
 #define QX_DONE() do { printf(qx_failed ? "QX-RESULT fail\n" : "QX-RESULT pass\n"); } while (0)
 '''
 
 CBMC_PRE = r'''
 #define QX_INPUT(T, n) { T qx_nd; n = qx_nd; }
+#define QX_FIXED(T, n, v) n = (T)(v)
 #define QX_DONE()
+#ifdef QX_WITH_CANARY
+#define QX_CANARY() __CPROVER_assert(0, "qx-canary: harness end is reachable under the preconditions")
+#else
+#define QX_CANARY()
+#endif
 '''
 
 
 def trace_inputs(cbmc_json_text, input_names):
     """pull the last assigned value of each in_N out of the first failing trace"""
     data = json.loads(cbmc_json_text)
+    tops = [dict(x, status='FAILURE') for x in data if isinstance(x, dict) and 'trace' in x and str(x.get('status', '')).lower() in ('failure', 'failed')]
+    if tops:
+        data = list(data) + [{'result': tops}]
     for x in data:
         if 'result' not in x:
             continue
